@@ -147,6 +147,8 @@ def shallow_round_factory(tol):
   def around(iterable, tol):
     if isinstance(iterable, float): return round(iterable, tol)
     if isinstance(iterable, (str, unicode)): return iterable # don't iterate strings
+    if isinstance(iterable, dict): # round the values, not the keys
+      return dict((i, round(j, tol) if isinstance(j, float) else j) for i,j in iterable.items())
     from klepto.tools import isiterable
     if not isiterable(iterable): return iterable
     itype = type(iterable)
